@@ -305,6 +305,44 @@ func runC03(c *Ctx) {
 			} else {
 				c.missing("R2", "(*conn).Close")
 			}
+			// … and nothing closes the connection's writer behind conn.Close's back: wherever Close is invoked on
+			// the WriteCloser of a conn, conn's mutex is held there, or it is the writer wrapped round the connection
+			// (which runs inside the locked sendPacket and was accepted above for its Write)
+			for _, fn := range p.LibFuncs() {
+				if outermost(fn).Package() != p.Sftp {
+					continue
+				}
+				fn := fn
+				eachInstr(fn, func(in ssa.Instruction) {
+					cc := callOf(in)
+					if cc == nil || !cc.IsInvoke() || cc.Method.Name() != "Close" {
+						return
+					}
+					onWriter := false
+					for _, l := range leavesOf(cc.Value) {
+						if l.Kind == leafFieldLoad && l.Field == "WriteCloser" {
+							onWriter = true
+						}
+					}
+					if !onWriter {
+						return
+					}
+					held := len(fn.Params) > 0 && heldAt(in, fn.Params[0], "conn.Mutex") == "Lock"
+					wrapper := len(callsWhere(fn, func(c2 *ssa.CallCommon) bool {
+						if !c2.IsInvoke() || c2.Method.Name() != "Write" {
+							return false
+						}
+						for _, l := range leavesOf(c2.Value) {
+							if l.Kind == leafFieldLoad && l.Field == "WriteCloser" {
+								return true
+							}
+						}
+						return false
+					})) > 0
+					c.check(held || wrapper, "R2", "the transport's Close in "+fnName(fn), pos(in), "under conn's mutex",
+						"the connection's writer is closed without conn's write mutex: a Close from another goroutine falls between the header and the payload of a request being written, and a torn packet is left on the wire")
+				})
+			}
 		}
 	}
 
@@ -613,6 +651,8 @@ func runC03(c *Ctx) {
 	checkIDMethods(c, "R7")
 	// R8 (shared with C06.R18): a request goes out under its id only if the length word does not overwrite it
 	checkHeaderReservesLengthPrefix(c, "R8")
+	// R10 (shared with C06.R3): the bytes of a request follow its length word — all of them
+	c.withOnly("R3", "R10", func() { runC06(c) })
 	// R9 (shared with C08.O3): replies are cut out of the stream at the right places — the length word is read completely
 	c.withRule("R9", func() { checkFrameLimits(c, newZWorld(p)) })
 }
@@ -1062,6 +1102,8 @@ func runC04(c *Ctx) {
 	checkFailedConstructionReleasesSession(c, "R14")
 	// R15 (shared with C20.Z8): with a worker count of zero WriteTo never returns, whatever happens to the connection
 	checkWorkerCountBounded(c, "R15")
+	// R16 (shared with C13.R22): after a lost connection the error found in a chunk is what the transfer returns
+	checkKnownErrorNotAnsweredWithNil(c, "R16")
 
 	// ---------- R8 no client lock is leaked: a later call would hang ----------
 	checkLockBalance(c, "R8", func(fn *ssa.Function) bool { return !isServerSide(fn) && outermost(fn).Package() == p.Sftp }, 15)
